@@ -68,3 +68,11 @@ pub assume_specification<T: Clone>[ <[T]>::to_vec ](s: &[T]) -> (r: Vec<T>)
 /// cloning a byte gives the same byte (u8: Copy)
 pub axiom fn axiom_cloned_u8()
     ensures forall|a: u8, b: u8| #[trigger] cloned::<u8>(a, b) ==> a == b;
+
+pub assume_specification<T>[ <[T]>::split_last ](s: &[T]) -> (r: Option<(&T, &[T])>)
+    ensures match r {
+        Some((last, rest)) => s@.len() > 0 && *last == s@[s@.len() - 1] && rest@ == s@.subrange(0, s@.len() - 1),
+        None => s@.len() == 0,
+    };
+pub assume_specification<T>[ core::mem::replace ](dest: &mut T, src: T) -> (r: T)
+    ensures r == *old(dest), *final(dest) == src;
